@@ -113,20 +113,31 @@ def parseRawToken? (cfg : TokCfg) (s : String) : Option Token :=
 def parseList? (f : String → Option Token) (s : String) : Option (List Token) :=
   if s == "-" then some [] else (s.splitOn ";").mapM f
 
-def runTokens (toks : List Token) : String :=
-  match run TbCfg.current State.init toks with
+def runTokens (cfg : TbCfg) (toks : List Token) : String :=
+  match run cfg State.init toks with
   | .ok s => dumpState s
   | .error e => "PANIC " ++ e
 
+/-- modes `tok` / `src` run the `.current` configuration (what /repo is expected to do); `tok+fixed` /
+`src+fixed` run the model with every proposed fix (no harness counterpart: used to pre-validate
+patches against a patched copy of the crates) -/
 def runCase (fields : List String) : String :=
   match fields with
   | ["tok", toks] =>
     match parseList? parseToken? toks with
-    | some ts => runTokens ts
+    | some ts => runTokens TbCfg.current ts
     | none => "bad-case"
   | ["src", _chunks, raw] =>
     match parseList? (parseRawToken? TokCfg.current) raw with
-    | some ts => runTokens ts
+    | some ts => runTokens TbCfg.current ts
+    | none => "bad-case"
+  | ["tok+fixed", toks] =>
+    match parseList? parseToken? toks with
+    | some ts => runTokens TbCfg.fixed ts
+    | none => "bad-case"
+  | ["src+fixed", _chunks, raw] =>
+    match parseList? (parseRawToken? TokCfg.fixed) raw with
+    | some ts => runTokens TbCfg.fixed ts
     | none => "bad-case"
   | _ => "bad-case"
 
